@@ -6,10 +6,13 @@
   (full-box header and count); ftyp payloads re-serialize to their bytes whatever their length (the
   `UnboundedArray` keeps an unaligned tail); the header codec round-trips (C16) so re-encoding the two
   top-level headers is the only other change.
-  The whole-tree frame statement is evaluated per generated case on the real output by `Spec_C04` (byte
-  comparison outside the walker's tables); its proof over the five nesting levels is future work (DESIGN.md).
+  `C04_carried` (for every input): the ftyp payload in the returned metadata is the input's, byte for byte, and the
+  moov payload in it is the input's last moov payload with every byte outside the tables the independent walker finds
+  in the INPUT unchanged (the frame over the five nesting levels: Lemmas/Splice.lean, Fusion.lean, KeepRel.lean).
+  `Spec_C04` (the walker run on the OUTPUT, byte comparison outside its tables) is evaluated per generated case.
 -/
 import MediaSan.Lemmas.Mp4Displace
+import MediaSan.Lemmas.RelocateFinal
 namespace MediaSan.Props.C04
 open MediaSan MediaSan.Mp4
 
@@ -58,5 +61,31 @@ theorem C04_ftyp_identical (b : Bytes) (f : Ftyp) (h : parseFtyp b = .ok f) :
 example : parseFtyp [0x6d,0x70,0x34,0x32, 0,0,0,1, 0x69,0x73,0x6f,0x6d, 7,7] =
     .ok ⟨[0x6d,0x70,0x34,0x32], 1, [0x69,0x73,0x6f,0x6d, 7,7]⟩ := by decide
 example : (Ftyp.mk [0x6d,0x70,0x34,0x32] 1 [0x69,0x73,0x6f,0x6d, 7,7]).hasIsom = true := by decide
+
+section Carried
+open MediaSan.Spec.Mp4Walk MediaSan.Spec.Mp4Rules
+
+/-- C04 for EVERY input, configuration and cursor kind, on the returned bytes: the ftyp payload inside the returned
+    metadata is the payload of the input's ftyp box byte for byte, and the moov payload inside it is the payload of the
+    input's last moov with every byte OUTSIDE the chunk-offset tables the independent walker finds (`moovTables`)
+    unchanged, at the same place, in the same length. -/
+theorem C04_carried (s : Stream) (kind : SkipKind) (cfg : Config) (r : Sanitized) (md : Bytes)
+    (h : Mp4.sanitize s kind cfg = .ok r) (hmd : r.metadata = some md) :
+    ∃ (bs : List TopBox) (f m : TopBox) (rs : List Region) (fo mo : Nat),
+      walkAll s 0 s.len cfg.cumulativeMdatBoxSize = .clean bs ∧
+      bs.find? (fun b => decide (b.name = cc 'f' 't' 'y' 'p')) = some f ∧ lastMoov bs = some m ∧ moovTables s m = some rs ∧
+      fo + f.payloadLen ≤ md.length ∧ (md.drop fo).take f.payloadLen = s.read f.payloadOff f.payloadLen ∧
+      mo + m.payloadLen ≤ md.length ∧
+      ∀ i, i < m.payloadLen → inRegions rs (m.payloadOff + i) = false → md.getD (mo + i) 0 = s.get (m.payloadOff + i) := by
+  obtain ⟨bs, m, T, mo, hw, hlm, hmt, hle, ho, hfit, hlen, hsl, hent⟩ := C01R.relocated s kind cfg r md h hmd
+  obtain ⟨p1, _⟩ := C01R.relocated_pointwise s m T mo md _ hle ho hfit hsl (fun x hx i hi => (hent x hx i hi).1)
+  obtain ⟨bs', f, fo, hw', hf, hfl, hfe⟩ := C01R.ftyp_carried s kind cfg r md h hmd
+  have : bs' = bs := by rw [hw] at hw'; cases hw'; rfl
+  subst this
+  refine ⟨bs', f, m, T.map (·.1), fo, mo, hw, ?_, hlm, hmt, hfl, hfe, hlen, p1⟩
+  rw [cc_ftyp]; exact hf
+
+
+end Carried
 
 end MediaSan.Props.C04
